@@ -893,6 +893,241 @@ def bool_expr_cmp(node, atoms):
     raise TranslationError(f'cannot translate the condition `{U(node)}`')
 
 
+def _g_orient():
+    """utils.py north_up and same_orientation_crs: when an image counts as north-up, and which image is wrapped in a WarpedVRT
+    (to north-up in its own CRS; into the other image's CRS)"""
+    from homonim import utils
+    out = []
+    fn = fn_body(src_of(utils.north_up))
+    ret = [n for n in ast.walk(fn) if isinstance(n, ast.Return)][-1]
+    want = 'np.sign(im.transform.a) == 1 and np.sign(im.transform.e) == -1 and (im.transform.b == 0) and (im.transform.d == 0)'
+    if U(ret.value) != want:
+        raise TranslationError(f'north_up returns `{U(ret.value)}`')
+    out.append(('orient_northUp', '(a b d e : Rat)', 'Bool', '(decide (0 < a) && decide (e < 0) && decide (b = 0) && decide (d = 0))',
+                'north_up: ' + want))
+    fn = fn_body(src_of(utils.same_orientation_crs))
+    if U(the_assign(fn, 'same_crs')) != 'src_im.crs == ref_im.crs':
+        raise TranslationError('same_orientation_crs: same_crs')
+    ifs = [n for n in fn.body if isinstance(n, ast.If)]
+    bodies = ['src_im = WarpedVRT(src_im, crs=src_im.crs, resampling=resampling)', 'ref_im = WarpedVRT(ref_im, crs=ref_im.crs, resampling=resampling)',
+              'src_im = WarpedVRT(src_im, crs=ref_im.crs, resampling=resampling)', 'ref_im = WarpedVRT(ref_im, crs=src_im.crs, resampling=resampling)']
+    if len(ifs) != 4 or [[U(x) for x in i.body] for i in ifs] != [[b] for b in bodies] or any(i.orelse for i in ifs):
+        raise TranslationError(f'same_orientation_crs: the four re-projection steps read {[[U(x) for x in i.body] for i in ifs]}')
+    rets = [n for n in fn.body if isinstance(n, ast.Return)]
+    if len(rets) != 1 or U(rets[0].value) != '(src_im, ref_im)' or fn.body.index(rets[0]) < fn.body.index(ifs[-1]):
+        raise TranslationError('same_orientation_crs: return')
+    atoms = {'north_up(src_im)': 'srcNorthUp', 'north_up(ref_im)': 'refNorthUp', 'same_crs': 'sameCrs',
+             'proc_crs != ProcCrs.src': '(!procIsSrc)', 'proc_crs == ProcCrs.src': 'procIsSrc'}
+    names = [('orient_flipSrc', '(srcNorthUp sameCrs procIsSrc : Bool)'), ('orient_flipRef', '(refNorthUp sameCrs procIsSrc : Bool)'),
+             ('orient_srcToRefCrs', '(sameCrs procIsSrc : Bool)'), ('orient_refToSrcCrs', '(sameCrs procIsSrc : Bool)')]
+    for (nm, sig), i in zip(names, ifs):
+        out.append((nm, sig, 'Bool', bool_expr(i.test, atoms), 'same_orientation_crs: if ' + U(i.test)))
+    return out
+
+
+def _m_naneq():
+    """utils.py nan_equals and RasterArray.mask: nodata comparison is exact equality, or both NaN; a pixel is valid iff it does
+    not compare equal to the nodata value (all pixels when there is no nodata value)"""
+    from homonim import utils
+    from homonim.raster_array import RasterArray
+    fn = fn_body(src_of(utils.nan_equals))
+    ret = [n for n in ast.walk(fn) if isinstance(n, ast.Return)][-1]
+    if U(ret.value) != '(a == b) | np.isnan(a) & np.isnan(b)' or not (isinstance(ret.value, ast.BinOp) and isinstance(ret.value.op, ast.BitOr)
+                                                                  and isinstance(ret.value.right, ast.BinOp) and isinstance(ret.value.right.op, ast.BitAnd)):
+        raise TranslationError(f'nan_equals returns `{U(ret.value)}`')
+    out = [('mask_nanEquals', '(eqAB isNanA isNanB : Bool)', 'Bool', '(eqAB || (isNanA && isNanB))', 'nan_equals: (a == b) | (np.isnan(a) & np.isnan(b))')]
+    fn = fn_body(src_of(RasterArray.mask.fget))
+    outer = [n for n in fn.body if isinstance(n, ast.If)]
+    if len(outer) != 1 or U(outer[0].test) != 'self._mask is None' or len(outer[0].body) != 1 or not isinstance(outer[0].body[0], ast.If):
+        raise TranslationError('RasterArray.mask: cache test')
+    inner = outer[0].body[0]
+    if U(inner.test) != 'self._nodata is None' or [U(x) for x in inner.body] != ['self._mask = np.full(self._array.shape[-2:], True)']:
+        raise TranslationError('RasterArray.mask: no nodata value means all valid')
+    els = [U(x) for x in inner.orelse]
+    if els != ['self._mask = ~utils.nan_equals(self._array, self._nodata)', 'if self._array.ndim > 2:\n    self._mask = np.any(self._mask, axis=0)']:
+        raise TranslationError(f'RasterArray.mask: {els}')
+    out.append(('mask_pixelValid', '(hasNodata eqNodata isNanPx isNanNodata : Bool)', 'Bool',
+                '(if hasNodata then !(mask_nanEquals eqNodata isNanPx isNanNodata) else true)',
+                'RasterArray.mask: ~nan_equals(array, nodata), all valid without a nodata value'))
+    return out
+
+
+def _f_accumulate():
+    """compare.py RasterCompare.process and stats.py ParamStats.stats: the workers only *return* their block's sums; the sums are
+    accumulated by the calling thread, one completed future at a time (no shared accumulator is touched by a worker)"""
+    from homonim.compare import RasterCompare
+    from homonim.stats import ParamStats
+    out = []
+    for cls, meth, acc, ret_want, unpack in ((RasterCompare, 'process', 'image_sums', '(sums_dict, block_pair)', 'block_sums_dict, block_pair = future.result()'),
+                                             (ParamStats, 'stats', 'image_accum', '(_block_dict, band_i)', 'block_dict, band_i = future.result()')):
+        fn = fn_body(src_of(getattr(cls, meth)))
+        worker = [n for n in fn.body if isinstance(n, ast.FunctionDef) and n.name == 'get_block_sums']
+        if len(worker) != 1:
+            raise TranslationError(f'{cls.__name__}.{meth}: worker function get_block_sums')
+        w = worker[0]
+        rets = [n for n in ast.walk(w) if isinstance(n, ast.Return)]
+        if len(rets) != 1 or U(rets[0].value) != ret_want:
+            raise TranslationError(f'{cls.__name__}.{meth}: the worker returns `{[U(r.value) for r in rets]}`')
+        names = {n.id for n in ast.walk(w) if isinstance(n, ast.Name)}
+        stores = {n.id for n in ast.walk(w) if isinstance(n, ast.Name) and isinstance(n.ctx, ast.Store)}
+        if acc in names or any(isinstance(n, (ast.Global, ast.Nonlocal)) for n in ast.walk(w)):
+            raise TranslationError(f'{cls.__name__}.{meth}: the worker touches the accumulator `{acc}` / non-local state')
+        # every container the worker writes into (subscript / attribute stores) must be its own local
+        for n in ast.walk(w):
+            if isinstance(n, (ast.Subscript, ast.Attribute)) and isinstance(n.ctx, ast.Store):
+                base = n
+                while isinstance(base, (ast.Subscript, ast.Attribute)):
+                    base = base.value
+                if not (isinstance(base, ast.Name) and base.id in stores):
+                    raise TranslationError(f'{cls.__name__}.{meth}: the worker writes into `{U(n)}`, which is not one of its locals')
+        pool = [n for n in fn.body if isinstance(n, ast.With) and 'ThreadPoolExecutor' in U(n.items[0].context_expr)]
+        if len(pool) != 1:
+            raise TranslationError(f'{cls.__name__}.{meth}: thread pool')
+        loops = [n for n in pool[0].body if isinstance(n, ast.For)]
+        if len(loops) != 1 or 'as_completed(' not in U(loops[0].iter) or U(loops[0].target) != 'future':
+            raise TranslationError(f'{cls.__name__}.{meth}: loop over completed futures')
+        body = [U(x) for x in loops[0].body]
+        if body[0] != unpack:
+            raise TranslationError(f'{cls.__name__}.{meth}: the completion loop starts with `{body[0]}`')
+        if not all(b.startswith(acc + '[') or b.startswith('if ') for b in body[1:]) or not any(b.startswith(acc + '[') for b in body[1:]):
+            raise TranslationError(f'{cls.__name__}.{meth}: the completion loop accumulates by {body[1:]}')
+        subs = [n for n in pool[0].body if isinstance(n, ast.Assign) and 'executor.submit(get_block_sums' in U(n.value)]
+        if len(subs) != 1:
+            raise TranslationError(f'{cls.__name__}.{meth}: submission of the workers')
+        nm = 'accumulate_compare' if cls is RasterCompare else 'accumulate_stats'
+        out.append((nm, '', 'List AccOp', '[.workerReturnsOwnSums, .submitEvery, .awaitEveryCompleted, .accumulateInCaller]',
+                    f'{cls.__name__}.{meth}: who adds the block sums up'))
+    return out
+
+
+def _c_loops():
+    """cli.py fuse / compare: the per-source loop re-binds none of the command's options (every source of one call is processed
+    with the options as given; `compare` unpacks the per-source band selection as its loop target)"""
+    import textwrap
+    from homonim import cli
+    out = []
+    for name, lean in (('fuse', 'cli_fuseLoopRebinds'), ('compare', 'cli_compareLoopRebinds')):
+        f = fn_body(src_of(getattr(cli, name).callback))
+        params = {a.arg for a in f.args.args + f.args.kwonlyargs} | ({f.args.kwarg.arg} if f.args.kwarg else set())
+        loops = [n for n in ast.walk(f) if isinstance(n, ast.For) and 'src_file' in U(n.iter)]
+        if len(loops) != 1:
+            raise TranslationError(f'cli.{name}: loop over the source files')
+        lp = loops[0]
+        # names bound before the loop (configuration dictionaries) count as options too
+        pre = set()
+        for st in ast.walk(f):
+            if isinstance(st, ast.Assign) and st.lineno < lp.lineno:
+                pre |= {n.id for t in st.targets for n in ast.walk(t) if isinstance(n, ast.Name)}
+        stores = {n.id for n in ast.walk(lp) if isinstance(n, ast.Name) and isinstance(n.ctx, ast.Store)}
+        inplace = sorted(U(n.func.value) for n in ast.walk(lp) if isinstance(n, ast.Call) and isinstance(n.func, ast.Attribute)
+                         and n.func.attr in ('update', 'pop', 'clear', 'setdefault', 'append', 'extend')
+                         and isinstance(n.func.value, ast.Name) and n.func.value.id in (params | pre))
+        rebinds = sorted((stores & (params | pre)) - {'comp_files'}) + inplace
+        out.append((lean, '', 'List String', '[' + ', '.join(f'"{x}"' for x in rebinds) + ']',
+                    f'cli.{name}: options (parameters, configuration dictionaries) re-bound or updated inside the per-source loop'))
+    return out
+
+
+def _f_profiles():
+    """fuse.py _merge_corr_profile / _merge_param_profile / create_out_profile / _set_metadata: the caller's out_profile is only
+    read (a fresh dictionary is built from it), the parameter image's float32 / NaN / 3n-band encoding is forced on the merged
+    copy, and every configuration value becomes a FUSE_* tag"""
+    from homonim.fuse import RasterFuse
+    def steps(fn):
+        return [U(st) for st in fn.body if not (isinstance(st, ast.Expr) and isinstance(st.value, ast.Constant))]
+    got = steps(fn_body(src_of(RasterFuse._merge_param_profile)))
+    want = ['if self.proc_crs == ProcCrs.ref:\n    init_profile = self.ref_im.profile\nelse:\n    init_profile = self.src_im.profile',
+            'out_profile = self.create_out_profile(**out_profile or {})',
+            'param_profile = utils.combine_profiles(init_profile, out_profile)',
+            'param_profile.update(dtype=RasterArray.default_dtype, count=len(self.src_bands) * 3, nodata=RasterArray.default_nodata)',
+            'return param_profile']
+    if got != want:
+        raise TranslationError(f'_merge_param_profile: {got}')
+    got = steps(fn_body(src_of(RasterFuse._merge_corr_profile)))
+    want = ['out_profile = self.create_out_profile(**out_profile or {})', 'corr_profile = utils.combine_profiles(self.src_im.profile, out_profile)',
+            "corr_profile['count'] = len(self.src_bands)", 'return corr_profile']
+    if got != want:
+        raise TranslationError(f'_merge_corr_profile: {got}')
+    got = steps(fn_body(src_of(RasterFuse.create_out_profile)))
+    if len(got) != 2 or not got[0].startswith('creation_options = creation_options or dict(') or \
+            got[1] != 'return dict(driver=driver, dtype=dtype, nodata=nodata, creation_options=creation_options)':
+        raise TranslationError(f'create_out_profile: {got}')
+    got = steps(fn_body(src_of(RasterFuse._set_metadata)))
+    want_meta = "kwargs_meta_dict = {f'FUSE_{k.upper()}': v.name if hasattr(v, 'name') else v for k, v in kwargs.items()}"
+    if len(got) != 6 or got[1] != want_meta or \
+            got[4] != 'meta_dict = dict(FUSE_SRC_FILE=src_name, FUSE_REF_FILE=ref_name, FUSE_PROC_CRS=self.proc_crs.name, **kwargs_meta_dict)' or \
+            got[5] != 'im.update_tags(**meta_dict)':
+        raise TranslationError(f'_set_metadata: {got}')
+    return [('profile_paramSteps', '', 'List ProfileStep', '[.initFromProcImage, .freshOutProfile, .combineIntoNew, .forceParamEncodingOnMerged]',
+             '_merge_param_profile'),
+            ('profile_corrSteps', '', 'List ProfileStep', '[.initFromSource, .freshOutProfile, .combineIntoNew, .countFromBands]', '_merge_corr_profile'),
+            ('profile_metaTags', '', 'List ProfileStep', '[.everyConfigKeyTagged, .srcRefProcTagged]', '_set_metadata')]
+
+
+def _c_nodata():
+    """cli.py _nodata_cb: which words mean "no nodata value", and that a number is parsed by Python's float (a double: the value
+    reaches the API as typed, not rounded to the working data type)"""
+    from homonim import cli
+    fn = fn_body(src_of(cli._nodata_cb))
+    top = [st for st in fn.body if not (isinstance(st, ast.Expr) and isinstance(st.value, ast.Constant))]
+    if len(top) != 1 or not isinstance(top[0], ast.If):
+        raise TranslationError('_nodata_cb: shape')
+    test = top[0].test
+    if not (isinstance(test, ast.BoolOp) and isinstance(test.op, ast.Or) and U(test.values[0]) == 'value is None' and
+            isinstance(test.values[1], ast.Compare) and U(test.values[1].left) == 'value.lower()' and isinstance(test.values[1].ops[0], ast.In)):
+        raise TranslationError(f'_nodata_cb: test `{U(test)}`')
+    words = ast.literal_eval(test.values[1].comparators[0])
+    if [U(x) for x in top[0].body] != ['return None']:
+        raise TranslationError('_nodata_cb: the null words must return None')
+    els = top[0].orelse
+    if len(els) != 2 or not isinstance(els[0], ast.Try) or U(els[1]) != 'return value':
+        raise TranslationError('_nodata_cb: number branch')
+    if [U(x) for x in els[0].body] != ['value = float(value.lower())']:
+        raise TranslationError(f'_nodata_cb: the number is parsed by `{[U(x) for x in els[0].body]}`')
+    h = els[0].handlers
+    if len(h) != 1 or len(h[0].body) != 1 or not isinstance(h[0].body[0], ast.Raise) or 'click.BadParameter' not in U(h[0].body[0]):
+        raise TranslationError('_nodata_cb: a non-number must raise click.BadParameter')
+    return [('cli_nodataNullWords', '', 'List String', '[' + ', '.join(f'"{w}"' for w in words) + ']', "_nodata_cb: value.lower() in [...] -> None"),
+            ('cli_nodataParser', '', 'String', '"float"', '_nodata_cb: value = float(value.lower())')]
+
+
+def _b_match():
+    """matched_pair.py _match_pair_bands: relative wavelength distance |s - r| / s (normalised by the SOURCE wavelength), when
+    wavelengths are used at all, the greedy step, and the tolerance test"""
+    from homonim.matched_pair import MatchedPairReader
+    fn = fn_body(src_of(MatchedPairReader._match_pair_bands))
+    guard = [n for n in ast.walk(fn) if isinstance(n, ast.If) and 'any(src_wavelengths)' in U(n.test)]
+    if len(guard) != 1:
+        raise TranslationError('_match_pair_bands: wavelength branch')
+    g = guard[0]
+    use = bool_expr(g.test, {'any(src_wavelengths)': 'anySrc', 'any(ref_wavelengths)': 'anyRef', 'self._force': 'force'})
+    if U(the_assign(g, 'abs_dist')) != 'np.abs(src_wavelengths[:, np.newaxis] - ref_wavelengths[np.newaxis, :])':
+        raise TranslationError(f"_match_pair_bands: abs_dist = `{U(the_assign(g, 'abs_dist'))}`")
+    if U(the_assign(g, 'rel_dist')) != 'abs_dist / src_wavelengths[:, np.newaxis]':
+        raise TranslationError(f"_match_pair_bands: rel_dist = `{U(the_assign(g, 'rel_dist'))}`")
+    gm = fn_body(g, 'greedy_match')
+    loops = [n for n in gm.body if isinstance(n, ast.While)]
+    if len(loops) != 1 or U(loops[0].test) != 'not dist.mask.all()':
+        raise TranslationError('greedy_match: loop')
+    body = [U(x) for x in loops[0].body]
+    want = ['min_dist = dist.min(axis=1)', 'min_dist_row_idx = np.ma.argmin(min_dist)', 'min_dist_row = dist[min_dist_row_idx, :]',
+            'match_idx[min_dist_row_idx] = np.ma.argmin(min_dist_row)', 'match_dist[min_dist_row_idx] = min_dist[min_dist_row_idx]',
+            'dist[:, int(match_idx[min_dist_row_idx])] = np.ma.masked', 'dist[min_dist_row_idx, :] = np.ma.masked']
+    if body != want:
+        raise TranslationError(f'greedy_match: step {body}')
+    if U(the_assign(g, '(match_dist, match_idx)')) != 'greedy_match(rel_dist)':
+        raise TranslationError('_match_pair_bands: the matcher runs on rel_dist')
+    tests = [n for n in g.body if isinstance(n, ast.If)]
+    if not tests or U(tests[0].test) != 'any(match_dist > MatchedPairReader._max_rel_wavelength_diff)' or \
+            not any(isinstance(x, ast.Raise) and U(x.exc).startswith('ValueError(') for x in tests[0].body):
+        raise TranslationError('_match_pair_bands: tolerance test')
+    return [('match_useWavelengths', '(anySrc anyRef force : Bool)', 'Bool', use, '_match_pair_bands: ' + U(g.test)),
+            ('match_relDist', '(s r : Rat)', 'Rat', '((if s - r < 0 then r - s else s - r) / s)', '_match_pair_bands: |src - ref| / src'),
+            ('match_tooFar', '(d tol : Rat)', 'Bool', '(decide (tol < d))', '_match_pair_bands: match_dist > _max_rel_wavelength_diff'),
+            ('match_greedySteps', '', 'List GreedyStep',
+             '[.rowMinima, .rowOfSmallestMinimum, .nearestColumnOfThatRow, .record, .maskColumn, .maskRow]', 'greedy_match: one step of the loop')]
+
+
 def _a_write():
     """raster_array.py to_rio_dataset: crop the window, return if empty, slice the block, check, convert, write data, write the
     mask OF THE CROPPED BLOCK when the dataset has no nodata value and band 1 is among the bands written"""
@@ -949,7 +1184,8 @@ def _a_read():
 
 # one extractor per source function: a failure in one leaves the others (and the properties they serve) alone
 SECTIONS = [_k_fit_gain, _k_fit_gain_offset, _k_r2, _k_blk, _s_cmp, _s_cmp_mean, _s_stats, _g_blocks, _g_resolve, _g_auto,
-            _g_overlap, _g_expand, _g_round, _g_covers, _g_pindex, _s_cmp_block, _m_cover, _a_bounded, _p_r2band, _f_prog, _f_outfiles, _c_invoke, _f_process, _k_resampling, _a_convert, _a_write, _a_read]
+            _g_overlap, _g_expand, _g_round, _g_covers, _g_pindex, _s_cmp_block, _m_cover, _a_bounded, _p_r2band, _f_prog, _f_outfiles, _c_invoke, _f_process, _k_resampling, _a_convert, _a_write, _a_read,
+            _g_orient, _m_naneq, _f_accumulate, _c_loops, _f_profiles, _c_nodata, _b_match]
 # definition-name prefixes each extractor is responsible for (used to attribute a failed extraction to properties)
 PROVIDES = {'_k_fit_gain': ('fitGain_',), '_k_fit_gain_offset': ('fitGainOffset_',), '_k_r2': ('r2_',),
             '_k_blk': ('blk_', 'blockNorm_', 'applyParams'), '_s_cmp': ('cmp_',), '_s_cmp_mean': ('cmp_meanRow',),
@@ -957,14 +1193,15 @@ PROVIDES = {'_k_fit_gain': ('fitGain_',), '_k_fit_gain_offset': ('fitGainOffset_
             '_g_overlap': ('overlapForKernel',), '_g_expand': ('expandWindow_',), '_g_round': ('roundBounds_',),
             '_g_covers': ('covers_axis',), '_g_pindex': ('paramIndex',), '_s_cmp_block': ('cmpPx_',), '_m_cover': ('cover_',),
             '_a_bounded': ('bounded_',), '_p_r2band': ('stats_isR2Band', 'stats_inpainted'), '_f_prog': ('prog',), '_f_outfiles': ('outFilesEvents',), '_c_invoke': ('cli_',), '_f_process': ('fanOut',), '_k_resampling': ('resamplingIsDown',), '_a_convert': ('convert_',), '_a_write': ('writeSteps',),
-            '_a_read': ('read_',)}
+            '_a_read': ('read_',), '_g_orient': ('orient_',), '_m_naneq': ('mask_',), '_f_accumulate': ('accumulate_',),
+            '_c_loops': ('cli_fuseLoop', 'cli_compareLoop'), '_f_profiles': ('profile_',), '_c_nodata': ('cli_nodata',), '_b_match': ('match_',)}
 # which generated definitions (by name prefix) bear on which property's check
 SERVES = {
     'C01': ('fitGain', 'r2_', 'blk_', 'blockNorm_'), 'C02': ('fitGain', 'r2_', 'blk_', 'blockNorm_', 'applyParams', 'resamplingIsDown'),
-    'C07': ('fitGain', 'r2_', 'blk_', 'blockNorm_', 'applyParams'), 'C14': ('applyParams', 'paramIndex', 'fitGain', 'r2_'),
-    'C04': ('prog', 'fanOut'), 'C09': ('prog', 'outFilesEvents', 'fanOut'), 'C10': ('outFilesEvents',), 'C11': ('cmp_', 'cmpPx_', 'resamplingIsDown'), 'C12': ('stats_',), 'C17': ('cover_',), 'C20': ('bounded_', 'writeSteps', 'read_', 'convert_'), 'C13': ('convert_', 'writeSteps'), 'C08': ('read_',),
+    'C07': ('fitGain', 'r2_', 'blk_', 'blockNorm_', 'applyParams', 'mask_'), 'C14': ('applyParams', 'paramIndex', 'fitGain', 'r2_', 'profile_metaTags'),
+    'C04': ('prog', 'fanOut', 'accumulate_'), 'C09': ('prog', 'outFilesEvents', 'fanOut'), 'C10': ('outFilesEvents', 'profile_', 'cli_fuseLoop'), 'C11': ('cmp_', 'cmpPx_', 'resamplingIsDown', 'accumulate_compare', 'mask_'), 'C12': ('stats_', 'accumulate_stats'), 'C17': ('cover_',), 'C20': ('bounded_', 'writeSteps', 'read_', 'convert_', 'mask_'), 'C13': ('convert_', 'writeSteps', 'profile_'), 'C08': ('read_', 'mask_'),
     'C03': ('writeSteps',), 'C05': ('overlapForKernel', 'blocks_', 'resamplingIsDown', 'fitGain', 'r2_'),
-    'C06': ('blocks_', 'expandWindow_', 'roundBounds_', 'autoBlock_'), 'C16': ('covers_axis',), 'C18': ('resolveAutoIsRef',), 'C19': ('cli_',),
+    'C06': ('blocks_', 'expandWindow_', 'roundBounds_', 'autoBlock_', 'orient_'), 'C16': ('covers_axis', 'orient_'), 'C18': ('resolveAutoIsRef', 'orient_', 'cli_fuseLoop'), 'C19': ('cli_',), 'C15': ('match_',),
 }
 # theorems outside Props/Cxx.lean audited with a property's proof leg: (module, theorem name prefix) - the source-text tie
 # theorems and the end-to-end theorems about the whole-image model (Props/E2E.lean)
@@ -976,16 +1213,19 @@ TIE = {
     'C03': [('E2E', 'block_transparent'), ('E2EMask', 'whole_image_'), ('E2EMask', 'block_mask_eq_whole'),
             ('E2EWide', 'wide_valid_iff_nearest'), ('E2EWide', 'wide_mask_eq_nearest'), ('E2EWide', 'whole_image_no_lost_pixels_wide'),
             ('E2EWide', 'block_mask_eq_whole_wide')],
-    'C15': [('BandInfo', 'bandInfo_')],
-    'C07': [('SrcTieKernel', 'src_C01_'), ('E2ELine', 'whole_image_scale'), ('E2EWide', 'whole_image_scale_wide')], 'C14': [('SrcTieKernel', 'src_C14_'), ('SrcTieGeom', 'src_C14_'), ('SrcTieKernel', 'src_C01_')],
-    'C11': [('SrcTieStats', 'src_C11_'), ('E2ECompare', 'compare_'), ('SrcTieKernel', 'src_C02_resampling')], 'C12': [('SrcTieStats', 'src_C12_')], 'C05': [('SrcTieGeom', 'src_C05_'), ('SrcTieGeom', 'src_C06_block'), ('SrcTieKernel', 'src_C01_'), ('E2E', 'block_transparent'), ('E2E', 'partitions_agree'),
+    'C15': [('BandInfo', 'bandInfo_'), ('SrcTieStats', 'src_C15_')],
+    'C07': [('SrcTieKernel', 'src_C01_'), ('E2ELine', 'whole_image_scale'), ('E2EWide', 'whole_image_scale_wide'), ('SrcTieGeom', 'src_C08_nan_equals'), ('SrcTieGeom', 'src_C08_mask_')],
+    'C14': [('SrcTieKernel', 'src_C14_'), ('SrcTieGeom', 'src_C14_'), ('SrcTieKernel', 'src_C01_'), ('SrcTieSched', 'src_C13_profiles'), ('E2EParam', 'param_valid_'), ('E2EParam', 'src_grid_corrected_is_param_applied')],
+    'C11': [('SrcTieStats', 'src_C11_'), ('E2ECompare', 'compare_'), ('SrcTieKernel', 'src_C02_resampling'), ('SrcTieSched', 'src_C04_accumulate'), ('SrcTieGeom', 'src_C08_nan_equals')],
+    'C12': [('SrcTieStats', 'src_C12_'), ('SrcTieSched', 'src_C04_accumulate')], 'C05': [('SrcTieGeom', 'src_C05_'), ('SrcTieGeom', 'src_C06_block'), ('SrcTieKernel', 'src_C01_'), ('E2E', 'block_transparent'), ('E2E', 'partitions_agree'),
             ('E2ESrc', 'block_transparent_src_grid'), ('E2ESrc', 'partitions_agree_src_grid'), ('E2ESrc', 'correctedSrcGrid_eq_on'),
-            ('E2EWide', 'block_transparent_wide'), ('E2EWide', 'block_mask_eq_whole_wide')],
-    'C06': [('SrcTieGeom', 'src_C06_')], 'C16': [('SrcTieGeom', 'src_C16_')], 'C18': [('SrcTieGeom', 'src_C18_')],
-    'C13': [('SrcTieGeom', 'src_C13_')], 'C08': [('SrcTieGeom', 'src_C08_')],
+            ('E2EWide', 'block_transparent_wide'), ('E2EWide', 'block_mask_eq_whole_wide'), ('E2EParam', 'param_image_')],
+    'C06': [('SrcTieGeom', 'src_C06_'), ('SrcTieGeom', 'src_C16_north_up'), ('SrcTieGeom', 'src_C16_same_orientation')], 'C16': [('SrcTieGeom', 'src_C16_')],
+    'C18': [('SrcTieGeom', 'src_C18_'), ('SrcTieGeom', 'src_C16_same_orientation'), ('SrcTieSched', 'src_C19_loops')],
+    'C13': [('SrcTieGeom', 'src_C13_'), ('SrcTieSched', 'src_C13_')], 'C08': [('SrcTieGeom', 'src_C08_')],
     'C17': [('SrcTieGeom', 'src_C17_'), ('E2EPartial', 'partial_mask_'), ('E2EPartialDef', 'partial_valid_'),
-            ('E2EPartialSrc', 'partial')], 'C20': [('SrcTieGeom', 'src_C20_')],
-    'C04': [('SrcTieSched', 'src_C04_')], 'C09': [('SrcTieSched', 'src_C04_')], 'C10': [('SrcTieSched', 'src_C10_')], 'C19': [('SrcTieSched', 'src_C19_')],
+            ('E2EPartialSrc', 'partial')], 'C20': [('SrcTieGeom', 'src_C20_'), ('SrcTieGeom', 'src_C08_nan_equals'), ('SrcTieGeom', 'src_C08_mask_')],
+    'C04': [('SrcTieSched', 'src_C04_')], 'C09': [('SrcTieSched', 'src_C04_')], 'C10': [('SrcTieSched', 'src_C10_'), ('SrcTieSched', 'src_C13_profiles'), ('SrcTieSched', 'src_C19_loops')], 'C19': [('SrcTieSched', 'src_C19_')],
 }
 
 
@@ -993,7 +1233,8 @@ def generate():
     """(text of GeneratedCode.lean, {extractor name: error text} for the source functions that could not be translated)"""
     lines = ['/-', '  GENERATED by harness/py2lean.py from the source text of the homonim package - do not edit.',
              '  Each definition is the closed form of what the named statement of the code evaluates (see py2lean.py).', '-/',
-             'import Homonim.Model.Sched', 'import Homonim.Model.FS', 'import Homonim.Model.WindowIO', 'namespace Homonim.Src', 'open Homonim', '']
+             'import Homonim.Model.Sched', 'import Homonim.Model.FS', 'import Homonim.Model.WindowIO', 'import Homonim.Model.Cli',
+             'import Homonim.Model.Bands', 'namespace Homonim.Src', 'open Homonim', '']
     errors = {}
     for fn in SECTIONS:
         try:
